@@ -327,7 +327,8 @@ func (t Type) Valid() bool {
 // considered valid if it's longer than 0 bytes, and doesn't contain any wildcard characters
 // such as + and #.
 func ValidTopic(topic []byte) bool {
-	return len(topic) > 0 && bytes.IndexByte(topic, '#') == -1 && bytes.IndexByte(topic, '+') == -1
+	// no wildcards, and no null character (MQTT-1.5.3-2)
+	return len(topic) > 0 && bytes.IndexByte(topic, '#') == -1 && bytes.IndexByte(topic, '+') == -1 && bytes.IndexByte(topic, 0) == -1
 }
 
 // ValidQos checks the QoS value to see if it's valid. Valid QoS are QosAtMostOnce,
